@@ -40,7 +40,7 @@ def callout_module(creator):
 # ---------------------------------------------------------------------------
 def gen_world(rng, npels=None, fault_rate=None):
     """returns (pels: list of {name, recipe}, plugins: {module: spec})"""
-    creators = rng.sample(["B", "H", "M", "T", "P", "S", "K", "L", "C", "Z", "Q", "O", "O"], rng.randint(2, 4))
+    creators = rng.sample(["B", "H", "M", "T", "P", "S", "K", "L", "C", "Z", "Q", "O", "O", "O", "O"], rng.randint(2, 4))
     comps = [0xE500, 0x1000, 0x2C00, 0x0A0B, 0xABCD, 0x0100, 0x3100]
     targets = [(c, rng.choice(comps)) for c in creators for _ in range(rng.randint(1, 2))]
     if rng.random() < 0.5:
@@ -58,13 +58,18 @@ def gen_world(rng, npels=None, fault_rate=None):
         while eid in eids:
             eid = pelgen.gen_id(rng, "typical")
         eids.add(eid)
+        # BMC reference codes of one plan share few component bytes, so that BD../11../BC.. codes of the same
+        # component (different sub-dispatch targets) meet in one process
+        pool = None
+        if c == "O":
+            pool = ["%s%s%04X" % (h, cc, rng.randrange(0x10000)) for h in ("BD", "BC", "11", "BD") for cc in rng.sample(["8D", "20", "75", "E5"], 2)]
         r = pelgen.gen_pel(rng, eid=eid, creator=c, ud_targets=targets, max_sections=7, want_class="serviceable",
-                           refcode_pool=None)
+                           refcode_pool=pool)
         pels.append({"name": common.bmc_name(r), "recipe": r})
     fr = fault_rate if fault_rate is not None else rng.choice([0, 1, 1, 2, 3])
     ud_w = {"ok": 8, "raise": fr, "none": fr, "importerror": fr, "keyerror": fr // 2, "modulenotfound": fr // 2}
-    src_w = {"ok": 8, "raise": fr, "none": fr, "null": 1, "empty": 1, "importerror": fr // 2}
-    co_w = {"ok": 8, "raise": fr, "none": 1, "empty": 1}
+    src_w = {"ok": 8, "raise": fr, "none": fr, "null": 1, "empty": 1, "importerror": fr, "modulenotfound": fr}
+    co_w = {"ok": 8, "raise": fr, "none": 1, "empty": 1, "importerror": fr // 2, "modulenotfound": fr // 2}
     plugins = {}
     for c, comp in targets:
         m = ud_module(c, comp)
@@ -99,7 +104,7 @@ def gen_world(rng, npels=None, fault_rate=None):
         for s in p["recipe"]["sections"]:
             if s["kind"] == "src":
                 m = osrc_sub(s["ascii"])
-                if m not in SHIPPED and rng.random() < 0.7:
+                if m not in SHIPPED and rng.random() < 0.85:
                     plugins.setdefault(m, {"type": "src", "weights": dict(src_w), "salt": rng.randrange(1 << 30),
                                            "import": rng.choice(["ok"] * 8 + ["ImportError", "ModuleNotFoundError"])})
     return pels, plugins
